@@ -164,15 +164,22 @@ Qed.
 Lemma head_skel_ok : skel_ok head_skel = true.
 Proof. vm_compute. reflexivity. Qed.
 
-Corollary count_head f : parse_caught head_skel f -> main f = Exit (count f).
-Proof. apply count_correct, head_skel_ok. Qed.
+Lemma head_parse_broad : parse_broad head_skel = true.
+Proof. vm_compute. reflexivity. Qed.
 
-(* at /repo HEAD parse_file catches (KeyError, AttributeError, OSError) only: an undecodable
-   file (UnicodeDecodeError, a ValueError) escapes main *)
+(* the table of /repo HEAD: unconditional *)
+Corollary count_head f : main f = Exit (count f).
+Proof. apply count_total; [apply head_skel_ok|apply head_parse_broad]. Qed.
+
+(* why parse_caught is needed for a narrower parse_file handler: with the table before 52ae5a2
+   (KeyError, AttributeError, OSError) an undecodable file (UnicodeDecodeError, a ValueError)
+   escapes main although the table satisfies skel_ok *)
 Definition undecodable_invocation : facts :=
   Facts AOk TNone true [true] [] [PExc EValue] [].
-Lemma head_refuted : exists f, main f = Raises EValue /\ ~ parse_caught head_skel f.
+Lemma narrow_escapes : skel_ok narrow_skel = true /\
+  exists f, main_with narrow_skel f = Raises EValue /\ ~ parse_caught narrow_skel f.
 Proof.
+  split; [vm_compute; reflexivity|].
   exists undecodable_invocation. split; [vm_compute; reflexivity|].
   intros H. assert (X : TNone <> TCasadi) by discriminate. specialize (H X).
   inversion H; subst. simpl in H2. discriminate.
